@@ -149,6 +149,8 @@ pub struct GenState {
     /// number of writes per key (filter profile: Destroy / RemoveWeak only for keys written once)
     pub wcount: std::collections::HashMap<Vec<u8>, u32>,
     pub frozen: std::collections::HashSet<Vec<u8>>,
+    /// 0 = not a fifo history, 1 = increasing keys, 2 = decreasing keys
+    pub fifo_dir: u8,
 }
 
 fn snap_choice(rng: &mut Rng, st: &GenState) -> Option<u32> {
@@ -162,7 +164,10 @@ fn snap_choice(rng: &mut Rng, st: &GenState) -> Option<u32> {
 fn gen_read(rng: &mut Rng, st: &GenState) -> Op {
     let s = snap_choice(rng, st);
     match rng.below(20) {
-        0..=8 => Op::Get(tweak_key_mostly_exact(rng, &st.keys), s),
+        0..=8 => Op::Get(
+            fifo_key(rng, st).unwrap_or_else(|| tweak_key_mostly_exact(rng, &st.keys)),
+            s,
+        ),
         9 => Op::GetMax(rng.pick(&st.keys).clone()),
         10..=14 => {
             let lo = rand_bound(rng, &st.keys);
@@ -185,6 +190,19 @@ fn gen_read(rng: &mut Rng, st: &GenState) -> Op {
         }
         _ => Op::IsEmpty(s),
     }
+}
+
+/// fifo histories write `t<counter>` keys outside the fixed universe: reads must hit them
+fn fifo_key(rng: &mut Rng, st: &GenState) -> Option<Vec<u8>> {
+    if st.fifo_dir == 0 || st.mono == 0 || rng.chance(1, 5) {
+        return None;
+    }
+    let i = rng.range(1, st.mono + 2);
+    Some(if st.fifo_dir == 1 {
+        format!("t{:06}", i).into_bytes()
+    } else {
+        format!("t{:06}", 999_999 - i).into_bytes()
+    })
 }
 
 fn tweak_key_mostly_exact(rng: &mut Rng, keys: &[Vec<u8>]) -> Vec<u8> {
@@ -485,6 +503,7 @@ pub fn generate(profile: &str, seed: u64, n_ops: usize, blob: bool) -> History {
         mono: 0,
         wcount: std::collections::HashMap::new(),
         frozen: std::collections::HashSet::new(),
+        fifo_dir: if profile == "fifo" { 1 + (seed % 2) as u8 } else { 0 },
     };
     let mut ops = Vec::with_capacity(n_ops);
     // phase weights vary per history so that some are write-heavy, some maintenance-heavy
